@@ -1,5 +1,7 @@
 """Common runner for the control-plane properties (C10, C11, C12): LifecycleTrace.tla, plus the
 data-path invariants a property also needs (C12: NoEarlyAck / AckPrefix after a force stop)."""
+import os
+import json
 import vlib
 from checks import dplib, dpgen
 
@@ -35,6 +37,17 @@ class LifecycleCheck(dplib.DataPathCheck):
         for v, mine in [(v, LC_INV_OF[self.prop]) for v in viols] + [(v, DP_INV_OF[self.prop]) for v in dp_viols]:
             if v["inv"] not in mine:
                 self.other_viols[v["inv"]] = self.other_viols.get(v["inv"], 0) + 1
+                if self.other_viols[v["inv"]] == 1 and v["scen"] in by_scen:
+                    # not this property's statement (its own check decides it): keep the first example for inspection
+                    try:
+                        d = os.path.join(vlib.VERIF, "scratch", "others")
+                        os.makedirs(d, exist_ok=True)
+                        j = by_scen[v["scen"]]
+                        json.dump({"violation": v, "scenario": self.scen[j],
+                                   "trace": [{k: x for k, x in e.items() if k != "goroutines"} for e in self.traces[j]]},
+                                  open(os.path.join(d, "%s-%s.json" % (self.prop, v["inv"])), "w"))
+                    except OSError:
+                        pass
                 continue
             i = by_scen[v["scen"]]
             sc, tr = self.scen[i], self.traces[i]
